@@ -546,6 +546,13 @@ func (c *FnCtx) lockOp(p *Path, m Val, mode int, acquire bool) {
 		c.oblige(p, "no_self_lock", shortKey(key), fmt.Sprintf("(= %s 0)", cur), "acquiring "+key+" while this thread already holds it", nil)
 		p.assume(fmt.Sprintf("(= %s 0)", cur))
 		p.heap.m[key] = fmt.Sprintf("(store %s %s %d)", arr, m.T, mode)
+		// declared lock order (deadlock freedom across objects): nothing that must come earlier may be taken now
+		for _, h := range p.held {
+			if c.eng.mustPrecede(key, h) {
+				c.oblige(p, "lock", "order_"+shortKey(key)+"_while_holding_"+shortKey(h), "false",
+					"acquiring "+key+" while holding "+h+": the declared lock order puts it first (two threads taking them in opposite orders deadlock)", nil)
+			}
+		}
 		p.held = append(p.held, key)
 		c.monitorAcquire(p, key, m)
 		if mode == 2 && len(p.frames) == 1 {
